@@ -1,9 +1,10 @@
 CONSTANTS
+  RebuildAll = TRUE
   K = 2
   MaxRestarts = 1
   MaxCalls = 3
   AlwaysReset = TRUE
-  Kinds = {"solve", "solve_guess", "solve_unit", "solve_mtx", "zero_rhs", "converged_guess", "nan_rhs", "throw_inside", "throw_late", "poison_inside", "diverge"}
+  Kinds = {"solve", "solve_guess", "solve_unit", "solve_mtx", "zero_rhs", "converged_guess", "nan_rhs", "throw_inside", "throw_late", "poison_inside", "diverge", "rebuild"}
 SPECIFICATION Spec
 INVARIANTS EmitHistories
 CHECK_DEADLOCK FALSE
